@@ -143,7 +143,7 @@ def worker(args):
             t = pick(ctx, TITLES, 'title')
             if t is not None:
                 e['title'] = t
-            if (args['bg0'] if i == 0 else (not args['bg0'] if directed else ctx.choose(2, 'background-job') == 1)):
+            if (args['bg0'] if i == 0 else ((not args['bg0'] or args.get('both_bg', False)) if directed else ctx.choose(2, 'background-job') == 1)):
                 e['run_background'] = True
             entries.append(e)
         by_path = {}
@@ -221,9 +221,15 @@ def worker(args):
                         page = fe.run_script(p)
                         e = by_path[p]
                         new = StubJob.log[before_jobs:]
+                        def alive_background(path):
+                            # ground truth: a job thread for this script that was started and has not finished its body
+                            return any(getattr(getattr(t.target, '__self__', None), 'name', None) == html.escape(path)
+                                       and t.target.__self__.job in StubJob.log[:before_jobs] for t in ManualThread.pending)
                         if running_before[p]:
                             if new:
                                 problems.append('%s is reported running but was started again' % p)
+                        elif new and e.get('run_background') and alive_background(p):
+                            problems.append('a second run of the background script %r was started while its first run is still executing' % p)
                         else:
                             if len(new) != 1:
                                 problems.append('request for listed path %r started %d jobs' % (p, len(new)))
@@ -353,6 +359,8 @@ def run(tier, seed):
     # directed: a background script and a queued script both under way, then every kind of request
     items += [{'file': f, 'path': p, 'bg0': bg, 'directed': True, 'seed': seed, 'max_entries': 2, 'requests': 4 if q else 5, 'restarts': 4 if q else 20,
                'max_paths': 1200 if q else 100000, 'budget_s': 10 if q else 200} for f in FILES[:3] for p in ('p', 'q&"r<', None) for bg in (False, True)]
+    items += [{'file': f, 'path': p, 'bg0': True, 'both_bg': True, 'directed': True, 'seed': seed, 'max_entries': 2, 'requests': 4 if q else 5, 'restarts': 4 if q else 20,
+               'max_paths': 1200 if q else 100000, 'budget_s': 10 if q else 200} for f in FILES[:2] for p in ('p', 'q&"r<')]
     results, skipped = report.run_pool(worker, items, budget_s=common.tier_budget(tier, 70, 900))
     return report.finish(
         PROP, tier, seed, 'exploration', results, skipped,
